@@ -382,7 +382,84 @@ def apply_op(pool, op, ctx, prefix="c09"):
         pool._replicate_blocks = order is not None
         pool._replicated = i
         return {i}
+    if kind == "replace":
+        return _op_replace(pool, op, ctx, prefix)
     raise HarnessError("unknown op %r" % (op,))
+
+
+def _op_replace(pool, op, ctx, prefix):
+    """replace_pattern_in_structure inside a history: the search pattern is a rigidly moved copy of 1-3 atoms of the object
+    itself (so it occurs at least once), the replacement re-uses the first pattern atoms' places and carries its own
+    types/terms; the result is judged by the reference model exactly as in C06."""
+    from . import replcheck, findcheck
+    from .props import c06
+    R, M = pool.real, pool.model
+    s = op["src"] % len(R)
+    m = M[s]
+    n = len(m.atoms)
+    if m.cell is None or n < 2 or n > 40:
+        return set()
+    cell = np.array(m.cell, float)
+    pos = np.array([a.pos for a in m.atoms]).reshape(-1, 3)
+    f = pos @ np.linalg.inv(cell)
+    if f.min() < 0 or f.max() >= 1:
+        ctx.count("replace_skipped_atoms_outside_cell")
+        return set()
+    if len({tuple(np.round(p, 6)) for p in pos}) != n:
+        ctx.count("replace_skipped_coincident_atoms")
+        return set()
+    idx = pick_indices(op["picks"], n)[:3]
+    # keep the pattern compact: atoms within 3 A (minimum image not needed: they are taken as stored)
+    idx = [idx[0]] + [i for i in idx[1:] if np.linalg.norm(pos[i] - pos[idx[0]]) < 3.0]
+    P0 = pos[idx]
+    D = geom.diameter(P0)
+    atol = 0.05
+    if not (geom.perp_widths(cell) > D + 2 * atol).all():
+        ctx.count("replace_skipped_cell_too_small")
+        return set()
+    Rm_ = np.array(op["R"], float)
+    P = (P0 - P0[0]) @ Rm_.T + np.array(op["t"], float)
+    pel = [m.atoms[i].el for i in idx]
+    ff = copy.deepcopy(op["ff"])
+    nr = len(ff["positions"])
+    rp = []
+    for j in range(nr):
+        if j < len(idx) and not op.get("disjoint"):
+            rp.append(P[j].tolist())
+        else:
+            rp.append((P[0] + (np.array(op["offsets"][j % len(op["offsets"])], float) @ Rm_.T)).tolist())
+    ff["positions"] = rp
+    from mofun import Atoms
+    search = Atoms(elements=pel, positions=P)
+    replace = guarded(prefix, "constructor", build_real, ff)
+    Rmod = RefAtoms.from_spec(ff)
+    pattern = {"elements": pel, "positions": P.tolist()}
+    rep_pat = {"elements": [a.el for a in Rmod.atoms], "positions": [list(a.pos) for a in Rmod.atoms]}
+    smap = replcheck.shared_map(pattern, rep_pat)
+    sp = {"cell": cell.tolist(), "pattern": pattern, "replace": rep_pat, "fraction": op.get("fraction", 1.0), "replace_all": False,
+          "atol": atol, "hints": None, "positions": pos.tolist(), "elements": [a.el for a in m.atoms]}
+    run = replcheck.run_replace(ctx, R[s], search, replace, sp, op.get("script") or {"choice": {"kind": "first"}, "sample": {"kind": "first"}, "seed": 1})
+    if run.exc is not None:
+        if type(run.exc).__name__ == "AtomsShouldNotBeDeletedTwice":
+            ctx.count("replace_overlap_error")
+            return set()
+        raise Violation("raises:%s" % type(run.exc).__name__, "replace inside a history: %s" % run.exc, site="replace")
+    if run.found is None or len(run.selected) != run.reported:
+        return set()
+    sel = [run.found[0][i] for i in run.selected]
+    retained = set(smap.values())
+    Dm = [set(i for a, i in enumerate(t) if a not in retained) for t in sel]
+    if Dm and sum(len(d) for d in Dm) != len(set().union(*Dm)):
+        ctx.count("replace_overlapping_selection")
+        return set()
+    res = run.result
+    where = "replace (history)"
+    refmodel.structural_invariants(res, where)
+    E, stats, removed = c06._expected_after_replace(ctx, m, Rmod, sp, run, res, smap, False)
+    refmodel.compare(refmodel.abstract(res), E, prefix, where, order="any", pos_tol=0.0)
+    ctx.count("history_replacements", run.reported)
+    i = pool.add(res, refmodel.abstract(res))
+    return {i}
 
 
 def gen_ops(rng, nobj, nops, cfg, weights=None):
@@ -418,6 +495,15 @@ def gen_ops(rng, nobj, nops, cfg, weights=None):
                         "repeat": rng.randint(2, 3)})
         elif k == "replicate":
             ops.append({"op": "replicate", "src": rng.randrange(cur), "dims": rng.choice([[1, 1, 1], [2, 1, 1], [1, 2, 1], [1, 1, 2], [2, 1, 3], [1, 3, 2], [2, 2, 1]])})
+            cur += 1
+        elif k == "replace":
+            nr = rng.randint(1, 3)
+            ff = gen_fragment(rng, cfg, "rp%d" % len(ops), atom_elements=[rng.choice(SAFE_ELEMENTS) for _ in range(nr)],
+                              positions=[[0.0, 0.0, float(i)] for i in range(nr)], label_scheme=None)
+            ops.append({"op": "replace", "src": rng.randrange(cur), "picks": [rng.random() for _ in range(3)], "R": geom.random_rotation(rng).tolist(),
+                        "t": [rng.uniform(-5, 5) for _ in range(3)], "ff": ff, "fraction": rng.choice([1.0, 1.0, 0.5]),
+                        "offsets": [[rng.uniform(-1.5, 1.5) for _ in range(3)] for _ in range(3)], "disjoint": rng.random() < 0.2,
+                        "script": {"choice": {"kind": rng.choice(["first", "last", "mt"])}, "sample": {"kind": rng.choice(["first", "last", "mt"])}, "seed": rng.getrandbits(20)}})
             cur += 1
         elif k == "restart":
             ops.append({"op": "restart", "obj": rng.randrange(cur), "style": rng.choice(["full", "full", "atomic"]),
